@@ -1919,7 +1919,10 @@ int32 tls13EncodeResponseClient(ssl_t *ssl, psBuf_t *out, uint32 *requiredLen)
         }
         if (ssl->tls13ClientEarlyDataEnabled == PS_TRUE)
         {
-            ssl->tls13ClientEarlyDataEnabled = PS_FALSE;
+            /* The flag is cleared only once the whole flight has been
+               encoded: when a message does not fit (SSL_FULL) this case is
+               run again on a larger buffer and must write EndOfEarlyData
+               again. */
             rc = tls13WriteEndOfEarlyData(ssl, out);
             if (rc < 0)
             {
@@ -1970,6 +1973,7 @@ int32 tls13EncodeResponseClient(ssl_t *ssl, psBuf_t *out, uint32 *requiredLen)
         {
             return rc;
         }
+        ssl->tls13ClientEarlyDataEnabled = PS_FALSE;
         ssl->hsState = SSL_HS_DONE;
         tls13ClearHsState(ssl);
         tls13ClearHsTemporaryState(ssl);
